@@ -126,7 +126,8 @@ def generate():
             if cty != "bool":
                 raise ValueError("range test is not boolean")
             stores = " ".join(then[gafter:].split())
-            out.append("(* %s: if %s { reject } %s *)" % (kind, " ".join(g.group(1).split()), stores))
+            out.append("(* %s: if %s { reject } %s *)" % (kind, " ".join(g.group(1).split()).replace("(*", "( *").replace("*)", "* )"),
+                                                          stores.replace("(*", "( *").replace("*)", "* )")))
             out.append("Definition gen_link_%s_reject (value : Z) : bool := %s." % (kind, cond))
             if kind in ("Byte", "SignedByte"):
                 if not STORE1.match(stores):
@@ -145,7 +146,7 @@ def generate():
                     raise ValueError("an assertion stores %r" % stores[:60])
             status["link:" + kind] = True
         except Exception as ex:       # noqa
-            out.append("(* %s: NOT TRANSLATED: %s *)" % (kind, str(ex).replace("*)", "* )")))
+            out.append("(* %s: NOT TRANSLATED: %s *)" % (kind, str(ex).replace("(*", "( *").replace("*)", "* )")))
             status["link:" + kind] = False
         out.append("")
     # the hand-over of the linked image: all of it, once, after every link succeeded
